@@ -265,7 +265,33 @@ func runC12(c *CaseCtx) {
 			noEffect("after-oversize")
 		case x < 75: // injected I/O error at the j-th file operation of the commit, j = 1, 2, ... until the commit gets through
 			t0 := g.WriteTx(true)
+			tplTx := false
+			if mergeVariant && r.Intn(2) == 0 {
+				tplTx = true
+				// a transaction that overwrites a live key and creates a new one in the same bucket (what a later Merge
+				// does with the records of such a transaction, had it failed, differs per record)
+				b := g.bucket()
+				var live, absent [][]byte
+				for _, k := range u.KVKeys {
+					if it := run.M.KV[b][string(k)]; it.live() {
+						live = append(live, k)
+					} else {
+						absent = append(absent, k)
+					}
+				}
+				if len(live) > 0 && len(absent) > 0 {
+					k1, k2 := live[r.Intn(len(live))], absent[r.Intn(len(absent))]
+					// the live version of k1 is written just before, so that it sits in the same segment as the records
+					// of the faulted transaction (unless a rotation falls in between)
+					run.Tx(TxSpec{Mode: "update", Ops: []Op{{K: "Put", B: b, Key: k1, Val: g.value(b, len(k1)+4)}}}, false)
+					t0 = TxSpec{Mode: "update", Ops: []Op{{K: "Put", B: b, Key: k1, Val: g.value(b, len(k1)+4)}, {K: "Put", B: b, Key: k2, Val: g.value(b, len(k2)+4)}}}
+					if r.Intn(2) == 0 {
+						t0.Ops[0], t0.Ops[1] = t0.Ops[1], t0.Ops[0]
+					}
+				}
+			}
 			mergeSoon = true
+			stopRetry := false
 			for j := 1; j <= 14 && !run.Dead && !c.Violated(); j++ {
 				// every attempt writes its own values: a record left behind by a failed attempt is then
 				// distinguishable from what a later, successful attempt commits
@@ -367,6 +393,26 @@ func runC12(c *CaseCtx) {
 					default:
 						c.Violate("in-doubt-partial:in-process:"+firstDiffCall(got, beforeObs), class, fmt.Sprintf("after %s the transaction is partially visible in the process:\n%s", where, diffObs(got, beforeObs)))
 					}
+					if !c.Violated() && mergeVariant && r.Intn(4) != 0 && run.Files() >= 2 {
+						// the in-doubt transaction is not retried and the same process merges: all or nothing must
+						// also hold across the Merge (and the reopen that follows below)
+						c.Log("merge (%d files) with an in-doubt transaction in the log", run.Files())
+						if _, p := mergeNoPanic(run); p != "" {
+							c.Violate("panic:Merge:"+p, class, "Merge panicked: "+p)
+							break
+						}
+						c.Stat("merges_over_in_doubt_transactions", 1)
+						got, _ = obsReal(run.DB, u)
+						switch {
+						case sameObs(got, beforeObs):
+							run.M = before
+						case sameObs(got, afterObs):
+							run.M = m
+						default:
+							c.Violate("in-doubt-partial:after-merge:"+firstDiffCall(got, beforeObs), class, fmt.Sprintf("after %s and a Merge in the same process the transaction is partially visible:\n%s", where, diffObs(got, beforeObs)))
+						}
+						stopRetry = true
+					}
 					if !c.Violated() && run.Reopen() {
 						got, _ = obsReal(run.DB, u)
 						switch {
@@ -379,6 +425,9 @@ func runC12(c *CaseCtx) {
 						}
 					}
 					c.Stat("in_doubt_outcomes", 1)
+					if stopRetry {
+						break
+					}
 					continue
 				}
 				// a failed commit: nothing may have changed
@@ -386,7 +435,7 @@ func runC12(c *CaseCtx) {
 					c.Note("%s", where)
 					break
 				}
-				if mergeVariant && inj.fired.Op == "write" && j >= 2 && r.Intn(2) == 0 {
+				if mergeVariant && inj.fired.Op == "write" && j >= 2 && r.Intn(2) == 0 && !(tplTx && cfg.Sync) {
 					// stop retrying: the records of this failed commit stay the newest ones for their keys, and the
 					// same process goes on (and merges) without a reopen in between
 					c.Stat("failed_commits_left_unretried", 1)
